@@ -2,10 +2,10 @@ package main
 
 func init() {
 	register("C06",
-		"Decides, on every enumerated path of every table-mutating operation and of the eviction callback, that a value which stops being current is reported exactly once atomically (inside the bucket-locked computation, with that node's key/value and the truthful cause) and exactly once deferred (one replay task, run exactly once by runTask, or one direct notification without maintenance), and that nothing is reported when the table is unchanged. "+
+		"Decides, on every enumerated path of every table-mutating operation and of the eviction callback, that a value which stops being current is reported exactly once atomically (inside the bucket-locked computation, with that node's key/value and the truthful cause) and exactly once deferred (one replay task, run exactly once by runTask, or one direct notification without maintenance), and that nothing is reported when the table is unchanged; the task of a writer that runs maintenance itself is replayed on every path of maintenance (C13.order) and a popped task always reaches runTask (C16.consume) - a dropped task is a lost deferred report. "+
 			"NOT decided: conservation (written = present + reported) over whole histories and races between replacement and eviction of one key beyond the per-path identity test.",
 		[]string{"hashmap.Map.Compute runs its callback exactly once under the bucket lock (C15)", "every enqueued task is replayed exactly once (C16, C05.runTask)"},
-		ruleC06Atomic, ruleC05Task, ruleC05RunTask, ruleEvict)
+		ruleC06Atomic, ruleC05Task, ruleC05RunTask, ruleEvict, ruleC13Order, ruleC16Consume)
 	register("C09",
 		"Decides that every explicit write/compute/invalidate/eviction clears the key's in-flight load record inside the same bucket-locked computation that changes the mapping (C09.clear) and that the load installer installs or removes only on paths where, inside that computation, its record was still registered (C09.guard = the installer's decision table), so a superseded load cannot overwrite a newer write. "+
 			"The installer's own-record test is an identity test inside the in-flight table's computation (C08.getorcreate: records are removed only by pointer identity). "+
@@ -17,10 +17,10 @@ func init() {
 		[]string{"stats.Recorder methods only add"},
 		ruleC20Lookup, ruleC20Load, ruleEvict)
 	register("C12",
-		"Decides the structural clauses of exact, overflow-free deadlines on every enumerated path: each stored deadline is the saturating sum of the operation's clock sample and the duration the hook returned on that path (C12.sat); hooks are selected by the pre-state - create for absent/expired, update/reload with the live old value, failure hook on failed reloads, read hook once per counted read - and an expired predecessor's value is never passed on (C12.hook); a replacing node inherits its predecessor's deadlines first (C12.inherit); the deadline writers are exactly the known sites (C12.sites); HasExpired/IsFresh have the same boundary in every variant (C12.bound). "+
+		"Decides the structural clauses of exact, overflow-free deadlines on every enumerated path: each stored deadline is the saturating sum of the operation's clock sample and the duration the hook returned on that path (C12.sat); hooks are selected by the pre-state - create for absent/expired, update/reload with the live old value, failure hook on failed reloads, read hook once per counted read - and an expired predecessor's value is never passed on (C12.hook, and C12.loadread for the loading reads); a replacing node inherits its predecessor's deadlines first (C12.inherit); the deadline writers are exactly the known sites (C12.sites); HasExpired/IsFresh have the same boundary in every variant (C12.bound). "+
 			"NOT decided: numeric equality deadline = now + d on concrete runs.",
 		[]string{"xmath.SaturatedAdd saturates (checked by C12.satfn)", "calculators are pure with respect to the cache"},
-		ruleC12Hooks, ruleC12Sites, ruleC12Bound, ruleC12Apply, ruleC10Finisher)
+		ruleC12Hooks, ruleC12Sites, ruleC12Bound, ruleC12Apply, ruleC10Finisher, ruleC12LoadReads)
 }
 
 func init() {
@@ -57,8 +57,8 @@ func init() {
 		ruleC05Task, ruleC05RunTask, rulePolicy, ruleC05Moves, ruleDeque, ruleDequeShape, ruleEvict, ruleC05LockCtx, ruleC05LockRead, ruleC14After, ruleC16Consume)
 	register("C07",
 		"Decides the structural clauses of 'entries disappear only for a sanctioned, truthful reason': evictions for size happen only in iterations guarded by weightedSize > maximum and never hit zero-weight entries (C04.loop, C04.zero); window transfers only above the window maximum (C07.window); the eviction callback reports Expiration exactly when the victim is expired at its time and Overflow otherwise, and only the policy (which exists only with a size bound) and the timer wheel call it (C07.causeflow); the wheel expires only on deadline < wheel time and passes that time (C13.nodrop). "+
-			"A deadline that has passed is the entry's own: a write over an absent or expired key takes the create hook and a fresh clock sample (C12.hook), so no entry is born with its predecessor's expired deadline. "+
+			"A deadline that has passed is the entry's own: a write over an absent or expired key takes the create hook and a fresh clock sample (C12.hook), so no entry is born with its predecessor's expired deadline; a loaded value is stored with a clock sample taken when it is stored, not when the load began (C10.finisher), so a slow load does not produce an entry that expires before its deadline. "+
 			"NOT decided: 'total weight exceeded the maximum at that moment' as a numeric fact.",
 		[]string{"the running totals are right (C04.acct decides who writes them)"},
-		rulePolicy, ruleEvict, ruleC07CauseFlow, ruleC13NoDrop, ruleC12Hooks)
+		rulePolicy, ruleEvict, ruleC07CauseFlow, ruleC13NoDrop, ruleC12Hooks, ruleC10Finisher)
 }
